@@ -263,7 +263,9 @@ SPECIAL = ['[H][H]', '[HH]', 'O', 'C', 'O=C=O', '[C-]#[O+]', 'C=O', 'CO', 'OO', 
            'C#C', 'C=C', 'C=C=C', 'C=C=C=C', 'CC(C)(C)C', 'CC(C)C(C)C', 'CC(C)(C)C(C)(C)C', 'C1CC1', 'C1CCC1', 'C1CCCCC1',
            'C1CC2CC1C2', 'C1CCC2(C1)CCC2', 'OC(=O)C', 'COC(=O)C', 'CC(=O)C', 'CC=O', 'OCCO', 'C1CO1', 'COC', 'COOC',
            'C1=CC=CCC1', 'C1=CCC=CC1', 'OC1C=CC=CC1', 'CC1=CC=CCC1', 'C1=CCCC=C1', 'C1=CC=CC=C1', 'CC1C=CC=CC1C', 'C1=CC=CC1', 'C1=CCCCC1',
-           'O=C1C=CC=CC1', 'C1=COC=CC1', 'C=C1C=CC=CC1', 'O=C=O', 'C1=CC=C(C)CC1']
+           'O=C1C=CC=CC1', 'C1=COC=CC1', 'C=C1C=CC=CC1', 'O=C=O', 'C1=CC=C(C)CC1',
+           'C[C]=CC', 'CC=[C]C', 'C[C]=C(C)C', 'CC[C]=CC', '[CH]=CC', 'C=[C]C', 'C[C]=C', 'CC(C)=[C]C', 'C[C]=CC=C',
+           'Cc1ccccc1C', 'CCc1ccccc1C', 'Cc1ccc(C)c(C)c1', 'Oc1ccccc1C', 'Cc1cccc(C)c1C', 'COc1ccccc1C', 'Cc1ccccc1-c1ccccc1']
 OOV = ['CN', 'CS', 'CCl', 'CF', 'CB', 'C[N+](C)(C)C', 'CC(=O)[O-]', '[NH4+]', 'c1ccncc1', 'CS(=O)C', 'N#N', 'CC#N',
        '[Pt]', '[Ru]', '[Na+].[Cl-]', 'C[Si](C)(C)C', 'OP(O)(O)=O', 'ClC(Cl)Cl', 'NC(=O)C', 'C[N+](=O)[O-]', '[Au]C']
 
